@@ -318,7 +318,7 @@ func zzAll(k []byte) bool { return true }
 //
 //zz:opt loop=12
 //zz:quick N=2 K=2 VLO=1
-//zz:thorough N=3 K=3
+//zz:thorough N=2 K=3
 func zzH_C12_get_has(t *zzT) {
 	sc := zzBuild(t, 2)
 	sc.zzOps(t, 0, t.Param("K", 2))
@@ -345,7 +345,7 @@ func zzH_C12_get_has(t *zzT) {
 //
 //zz:opt loop=16
 //zz:quick N=2 K=1 VLO=1
-//zz:thorough N=3 K=2
+//zz:thorough N=3 K=2 VLO=1
 func zzH_C12_range(t *zzT) {
 	sc := zzBuild(t, 2)
 	sc.zzOps(t, 0, t.Param("K", 1))
@@ -412,7 +412,7 @@ func zzH_C12_iterate_whole_view(t *zzT) {
 //
 //zz:opt loop=16
 //zz:quick N=2 K=1 VLO=1
-//zz:thorough N=3 K=2
+//zz:thorough N=3 K=2 VLO=1
 func zzH_C12_iterate(t *zzT) {
 	sc := zzBuild(t, 2)
 	sc.zzOps(t, 0, t.Param("K", 1))
@@ -463,7 +463,7 @@ func zzH_C12_iterate_nested_view(t *zzT) {
 //
 //zz:opt loop=16
 //zz:quick N=1 K1=1 K2=1 VLO=1 ROOT=1
-//zz:thorough N=2 K1=1 K2=2 ROOT=1
+//zz:thorough N=2 K1=1 K2=2 VLO=1 ROOT=1
 func zzH_C12_snapshot_restore(t *zzT) {
 	sc := zzBuild(t, 1)
 	k1 := t.Param("K1", 1)
@@ -503,7 +503,7 @@ func zzCommitScenario(t *zzT) (*zzScenario, []zzOpInfo, *Diff) {
 //
 //zz:opt loop=16
 //zz:quick N=2 K=2 VLO=1 READS=1
-//zz:thorough N=3 K=3 READS=1 mapperm=1
+//zz:thorough N=2 K=3 VLO=1 READS=1
 func zzH_C12_commit_reopen(t *zzT) {
 	sc, _, _ := zzCommitScenario(t)
 	t.Assert(zzSameStore(sc.store, sc.ref), "Commit writes exactly the staged final state")
@@ -514,14 +514,15 @@ func zzH_C12_commit_reopen(t *zzT) {
 	t.Reach("end")
 }
 
-// C05.a diff algebra: Commit then RevertDiff restores the initial store byte for byte, also after
-// the diff went through Encode/Decode (it is persisted per height); Commit writes exactly the staged
-// state; the diff only mentions keys whose store content changed... (not required, not asserted).
-// Reach markers make sure the three one-block patterns of the DESIGN are covered.
+// C05.a diff algebra: K operations (Set/Del/Get) through two prefix views on an arbitrary store;
+// Commit writes exactly the staged state, and RevertDiff of the committed diff — after it went through
+// Encode/Decode, as it is persisted per height — restores the initial store byte for byte.
+// The required Reach markers make sure the one-block patterns created-then-deleted,
+// overwritten-then-deleted and deleted-then-recreated are covered.
 //
 //zz:opt loop=16 require=created-then-deleted,overwritten-then-deleted,deleted-then-recreated
 //zz:quick N=2 K=2 VLO=1 READS=1
-//zz:thorough N=3 K=3 VHI=2 READS=1 mapperm=1
+//zz:thorough N=1 K=3 VHI=2 READS=1
 func zzH_C05_commit_revert(t *zzT) {
 	sc, infos, diff := zzCommitScenario(t)
 	t.Assert(zzSameStore(sc.store, sc.ref), "Commit writes exactly the staged final state")
